@@ -2430,6 +2430,24 @@ Box<ITV>::add_constraints_no_check(const Constraint_System& cs) {
   // Note: even when the box is known to be empty, we need to go
   // through all the constraints to fulfill the method's contract
   // for what concerns exception throwing.
+  // All the constraints are checked before adding any of them, so that
+  // `*this' is left unchanged if an exception has to be thrown.
+  for (Constraint_System::const_iterator i = cs.begin(),
+         cs_end = cs.end(); i != cs_end; ++i) {
+    dimension_type c_num_vars = 0;
+    dimension_type c_only_var = 0;
+    if (!Box_Helpers::extract_interval_constraint(*i, c_num_vars,
+                                                  c_only_var)) {
+      throw_invalid_argument("add_constraints(cs)",
+                             "cs contains a constraint"
+                             " that is not an interval constraint");
+    }
+    if (i->is_strict_inequality() && c_num_vars != 0
+        && ITV::is_always_topologically_closed()) {
+      throw_invalid_argument("add_constraints(cs)",
+                             "cs contains a nontrivial strict constraint");
+    }
+  }
   for (Constraint_System::const_iterator i = cs.begin(),
          cs_end = cs.end(); i != cs_end; ++i) {
     add_constraint_no_check(*i);
@@ -2492,6 +2510,21 @@ Box<ITV>::add_congruences_no_check(const Congruence_System& cgs) {
   // Note: even when the box is known to be empty, we need to go
   // through all the congruences to fulfill the method's contract
   // for what concerns exception throwing.
+  // All the congruences are checked before adding any of them, so that
+  // `*this' is left unchanged if an exception has to be thrown.
+  for (Congruence_System::const_iterator i = cgs.begin(),
+         cgs_end = cgs.end(); i != cgs_end; ++i) {
+    dimension_type cg_num_vars = 0;
+    dimension_type cg_only_var = 0;
+    if (i->is_proper_congruence()
+        ? (!i->is_inconsistent() && !i->is_tautological())
+        : !Box_Helpers::extract_interval_congruence(*i, cg_num_vars,
+                                                    cg_only_var)) {
+      throw_invalid_argument("add_congruences(cgs)",
+                             "cgs contains a congruence that is neither"
+                             " trivial nor an interval equality");
+    }
+  }
   for (Congruence_System::const_iterator i = cgs.begin(),
          cgs_end = cgs.end(); i != cgs_end; ++i) {
     add_congruence_no_check(*i);
